@@ -132,9 +132,29 @@ func randValue(r *rand.Rand, depth int) V {
 	perm := r.Perm(len(namePool))
 	for i := 0; i < n; i++ {
 		v.Names = append(v.Names, namePool[perm[i]])
-		v.Kids = append(v.Kids, randValue(r, depth-1))
+		k := randValue(r, depth-1)
+		if r.Intn(6) == 0 && hasBits(&k) && (k.T != "scalar" || k.Kind == "raw") && k.Sym.T == "none" && k.Desc == "" {
+			k.NRoot = true // a nested buffer of its own (as gzip's uncompressed, zip members, ogg packets)
+		}
+		v.Kids = append(v.Kids, k)
 	}
 	return v
+}
+
+// hasBits: every direct child of a nested root must own bits (an empty nested buffer gets a zero-length gap field)
+func hasBits(v *V) bool {
+	if v.T == "scalar" {
+		return !v.Syn && !(v.Kind == "str" && v.A.S == "") && !(v.Kind == "raw" && len(v.Bits) == 0)
+	}
+	if len(v.Kids) == 0 {
+		return false
+	}
+	for i := range v.Kids {
+		if !hasBits(&v.Kids[i]) || v.Kids[i].NRoot {
+			return false
+		}
+	}
+	return true
 }
 
 // a root struct with real gap fields: non-synthetic scalars with undecoded stretches (>= 8 bits, never adjacent) between them
@@ -231,15 +251,16 @@ func dupNames(v *V) bool {
 }
 
 type corpusJob struct {
-	File   string `json:"file"`
-	Format string `json:"format"`
-	Picks  []int  `json:"picks"`
+	File   string  `json:"file"`
+	Format string  `json:"format"`
+	Picks  []int   `json:"picks"`
+	Paths  [][]any `json:"paths"` // explicit node paths (confirmation runs) instead of sampled ones
 }
 
 func corpus(jobsPath string, qs []Query, out *kit.Out) {
 	prog := program0(qs) + `
 . as $root | [path(..)] as $ps | ($ps | length) as $n
-| ([$picks[] | $ps[. % $n]] | unique | .[]) as $p
+| (if ($paths | length) > 0 then $paths[] else ([$picks[] | $ps[. % $n]] | unique | .[]) end) as $p
 | $root | getpath($p)
 | _c08_describe as $d
 | if $d == null then empty else [$p, $d, _c08run, (tovalue | _c08run)] | tojson end
@@ -252,9 +273,16 @@ func corpus(jobsPath string, qs []Query, out *kit.Out) {
 		if err != nil {
 			kit.Fatalf("read %s: %v", j.File, err)
 		}
+		if j.Picks == nil {
+			j.Picks = []int{}
+		}
+		if j.Paths == nil {
+			j.Paths = [][]any{}
+		}
 		pj, _ := json.Marshal(j.Picks)
+		paj, _ := json.Marshal(j.Paths)
 		name := filepath.Base(j.File)
-		so, se, code := runFq(map[string][]byte{name: b}, "-r", "-d", j.Format, "--argjson", "picks", string(pj), prog, name)
+		so, se, code := runFq(map[string][]byte{name: b}, "-r", "-d", j.Format, "--argjson", "picks", string(pj), "--argjson", "paths", string(paj), prog, name)
 		if code != 0 || strings.TrimSpace(se) != "" {
 			stats["files_failed"]++
 			fmt.Fprintf(os.Stderr, "c08 corpus: %s (%s): code %d: %s\n", j.File, j.Format, code, tail(strings.TrimSpace(se), 300))
